@@ -8,6 +8,8 @@ import (
 // QueryBinding is the query binder for query request body.
 type QueryBinding struct {
 	EnableSplitting bool
+	// Immutable makes the binder copy keys and values out of the request buffers
+	Immutable bool
 }
 
 // Name returns the binding name.
@@ -27,6 +29,9 @@ func (b *QueryBinding) Bind(reqCtx *fasthttp.Request, out any) error {
 
 		k := utils.UnsafeString(key)
 		v := utils.UnsafeString(val)
+		if b.Immutable {
+			k, v = string(key), string(val)
+		}
 		err = formatBindData(out, data, k, v, b.EnableSplitting, true)
 	})
 
@@ -40,4 +45,5 @@ func (b *QueryBinding) Bind(reqCtx *fasthttp.Request, out any) error {
 // Reset resets the QueryBinding binder.
 func (b *QueryBinding) Reset() {
 	b.EnableSplitting = false
+	b.Immutable = false
 }
